@@ -291,6 +291,20 @@ func spellPlain(toks []etok) string {
 	return strings.Join(parts, " ")
 }
 
+// genBlockComment draws a block comment with an arbitrary body (slashes, stars, quotes, operators, line breaks);
+// the only thing a body cannot contain is the terminator itself.
+func genBlockComment(t *rapid.T) string {
+	var sb strings.Builder
+	for n := rapid.IntRange(0, 6).Draw(t, "cparts"); n > 0; n-- {
+		sb.WriteString(rapid.SampledFrom([]string{"/", "*", "**", "//", "/*", "a", "tot", " ", "+", "- 3", "'", "\"", "\n", "é", "(", ")", "1"}).Draw(t, "cpart"))
+	}
+	body := sb.String()
+	for strings.Contains(body, "*/") {
+		body = strings.ReplaceAll(body, "*/", "* /")
+	}
+	return "/*" + body + "*/"
+}
+
 // spellRandom draws keyword letter case, the spelling of <>, and separators (none where legal, blanks,
 // tabs, line breaks, comments).
 func spellRandom(t *rapid.T, toks []etok) string {
@@ -315,6 +329,9 @@ func spellRandom(t *rapid.T, toks []etok) string {
 			}
 		}
 		sep := rapid.SampledFrom([]string{"", "", "", " ", " ", "  ", "\t", "\n", "\r\n", " /* c */ ", "/**/", "/* a+b */"}).Draw(t, "sep")
+		if rapid.IntRange(0, 9).Draw(t, "gencomment") == 0 {
+			sep = genBlockComment(t)
+		}
 		if sep == "" && mustSeparate(prev, s) {
 			sep = " "
 		}
